@@ -1,4 +1,5 @@
 SPECIFICATION FairSpec
+CONSTANT Lax = FALSE
 CONSTANT Canonical = FALSE
 PROPERTY Termination
 INVARIANT Inv_C12
